@@ -63,6 +63,36 @@ CLAIMED = {
    design_ref='DESIGN.md section 3, C15',
    note='Printed numbers compared to printed precision; user-power inputs only.',
    technique='deterministic simulation: independent fold over the recorded step history'),
+ 'C04': dict(
+   category='exploration',
+   text=('Seeded search: max-principle invariants monitored at every tick of the march the '
+         'code itself selects (zero-power worlds stay at the inlet value, nothing below the '
+         'inlet with non-negative power, no new extremum in core-wide unheated ticks over the '
+         'hull of the last two levels, no-flow/duct-average gap temperatures inside the hull '
+         'of adjacent walls and neighbours) plus state-perturbation probes at seeded ticks: '
+         'the reactor is duplicated, one cell gets +delta, both copies run the real '
+         'axial_step and the difference is read as a column of the update operator '
+         '(>= 0, <= 1, flow-weighted column sum = own flow share where all carriers flow). '
+         'Probes are steered to the step-limiting cell type (interior/edge/corner, bypass, '
+         'low-fidelity node, gap).'),
+   design_ref='DESIGN.md section 3, C04',
+   note=('Exact operator columns only in constant-property worlds; temperature-dependent '
+         'worlds use delta = 0.01 K and a 2e-2 tolerance. Long worlds are swept for their '
+         'first 400 ticks only.'),
+   technique='deterministic simulation: per-tick invariants + state-perturbation fault injection on duplicated reactors'),
+ 'C05': dict(
+   category='exploration',
+   text=('Seeded search over mesh constructions: full Reactor builds on worlds with nearly '
+         'coincident region/power/requested planes (offsets 0, 1e-13..1e-6), step '
+         'requirements from sub-micrometre to centimetres and user steps on either side of '
+         'the limit, plus the real mesh methods on a bare Reactor populated with drawn '
+         'boundary lists (incl. m->cm->m conversion residues). Invariants: starts at 0, ends '
+         'exactly at the core length, strictly increasing, dz consistent, every boundary a '
+         'plane, no step above the smallest requirement, user step honoured iff below the '
+         'limit; bounded liveness as a deterministic call budget on _check_dz.'),
+   design_ref='DESIGN.md section 3, C05',
+   note='A hang is a budget of ceil(L/req)+2*#bounds+10 _check_dz calls; meshes above the plane cap are not executed in the full driver.',
+   technique='deterministic simulation: construction of the simulated clock under a deterministic step budget (bounded liveness)'),
  'C06': dict(
    category='exploration',
    text=('Seeded search over worlds and schedules: every generated multi-assembly '
